@@ -50,8 +50,10 @@ class FirstExceptionInAll:
         self.inputs = inputs
 
     def __bool__(self) -> Any:
-        """Return the result of the ELT evaluation which invalidated the ``all`` quantifier."""
-        return self.result
+        """Return the truth value of the ELT evaluation which invalidated the ``all`` quantifier."""
+        # The evaluation of ELT is falsy, but not necessarily a ``bool`` (*e.g.*, ``all(x for x in lst)``),
+        # while ``__bool__`` must return a ``bool``.
+        return bool(self.result)
 
 
 ContextT = TypeVar("ContextT", bound=ast.expr_context)
